@@ -6,6 +6,7 @@ loopback / in-memory Patron <-> Valet harness.
 Nothing in here imports a model from ioflo; ioflo classes are only
 *instantiated* by the harness functions at the bottom (lazily imported).
 """
+from vf import net
 import collections.abc  # noqa: F401
 import errno
 import itertools
@@ -802,7 +803,7 @@ def mem_client(net, store, **kwa):
 def loop_server(store, timeout=None):
     """A real tcp Server on an ephemeral loopback port, opened."""
     from ioflo.aio.tcp import Server
-    srv = Server(ha=("127.0.0.1", 0), store=store, timeout=timeout)
+    srv = Server(ha=(net.host(), 0), store=store, timeout=timeout)      # see vf/net.py
     if not srv.reopen():
         raise RuntimeError("cannot open loopback server")
     srv.eha = srv.ha          # eha was computed from port 0 before bind
@@ -1055,6 +1056,7 @@ class Pair(object):
         self.servant = mem_server(self.net, self.store, timeout) if mem else loop_server(self.store, timeout)
         self.valet = serving.Valet(servant=self.servant, app=app, store=self.store)
         self.port = self.servant.ha[1]
+        self.host = self.servant.ha[0]      # 127.0.0.1 in memory, this process's loopback address on real sockets
         self.patrons = []
         self.rounds = 0
 
@@ -1064,10 +1066,10 @@ class Pair(object):
         if self.mem:
             conn = mem_client(self.net, self.store)
         else:
-            conn = Client(ha=("127.0.0.1", self.port), store=self.store)
+            conn = Client(ha=(net.host(), self.port), store=self.store)
             conn.reopen()
             conn.cs.setsockopt(socket.IPPROTO_TCP, socket.TCP_NODELAY, 1)
-        p = clienting.Patron(connector=conn, store=self.store, hostname="127.0.0.1", port=self.port, **kwa)
+        p = clienting.Patron(connector=conn, store=self.store, hostname=self.host, port=self.port, **kwa)
         self.patrons.append(p)
         return p
 
